@@ -163,6 +163,17 @@ func c03Gen(c *vh.Ctx, files, strs [][]byte) []c03Job {
 		addAllPol([]byte(w), "corpus")
 	}
 
+	// 1b. errors behind multi-byte characters, tabs and invalid bytes on the same line (the command line tool shows the line and
+	// a caret: the caret's place is counted in characters and tab stops, the error's column in bytes — seeded C03-q2)
+	for _, k := range []int{1, 2, 3, 7, 20, 45} {
+		for _, unit := range []string{"é", "世", "\U0001F600", "\xff", "\t", "a\t世"} {
+			pre := strings.Repeat(unit, k)
+			for _, shape := range []string{"BEGIN { s = \"%s\"; x = }", "# %s\nBEGIN { s = \"%s\" ; if }", "BEGIN { s = \"%s\" ) }\n{ ok }", "\t{ x = \"%s\" ++ }", "BEGIN { y = 1 } # %s\nEND { z = /%s/ ] }"} {
+				addAllPol([]byte(strings.ReplaceAll(shape, "%s", pre)), "corpus")
+			}
+		}
+	}
+
 	// 2. 1e-forms at every distance from a line end
 	for _, h := range c03ExpHeads {
 		for _, f := range c03ExpForms {
@@ -481,6 +492,11 @@ func runC03(c *vh.Ctx) {
 				if res[k].status != 1 || strings.Contains(res[k].stderr, "panic:") || strings.Contains(res[k].stderr, "goroutine ") {
 					c.Fail(vh.Failure{Kind: "oracle", What: fmt.Sprintf("goawk binary on a rejected program: exit status %d (want 1) / panic in stderr", res[k].status),
 						Case: jobs[i].toCase(), Got: c03Trunc(res[k].stderr, 600)})
+				} else if bad, got, want := c03CheckShownLine(c03CLISource(jobs[i].src), c03Parse(c03CLISource(jobs[i].src)), res[k].stderr); bad != "" {
+					c.Hit("cli:shown-line-checked")
+					c.Fail(vh.Failure{Kind: "oracle", What: bad, Case: jobs[i].toCase(), Got: got, Want: want})
+				} else {
+					c.Hit("cli:shown-line-checked")
 				}
 			}
 		}
